@@ -82,6 +82,10 @@ pub struct Lifetime {
     /// believed a moment ago
     #[serde(default)]
     pub race_map: u8,
+    /// k > 0: the k-th `mmap` of this lifetime fails with ENOMEM (the search goes on or the
+    /// installation is refused; whatever was obtained before is released exactly once)
+    #[serde(default)]
+    pub mmap_fail: u8,
 }
 
 #[derive(Serialize, Deserialize, Clone, Debug, Hash, PartialEq, Eq)]
@@ -176,6 +180,9 @@ pub struct LifeObs {
     /// content intact) after the lifetime
     #[serde(default)]
     pub raced: Vec<(u64, bool, bool)>,
+    /// blocks whose release failed at scope exit: (address, first 32 bytes as they are now)
+    #[serde(default)]
+    pub unreleased: Vec<(u64, Vec<u8>)>,
     pub drop_panicked: Option<String>,
     pub drop_log: Vec<LogEv>,
     /// (target index, bytes now, value if it was safe to call)
@@ -392,18 +399,24 @@ fn execute_inner(c: &HistCase, opts: &Opts) -> HistObs {
                 // (lifetimes with an even number of steps leave every other released address free:
                 // the next trampolines then land *between* foreign pages)
                 let alternate = life.steps.len() % 2 == 0;
+                // (and somebody else's code a few pages above every released address, whether that
+                // address itself is taken or left free for the next trampoline)
+                let mut wanted: Vec<usize> = vec![];
                 for (idx, (a, _)) in last_tramps.iter().enumerate() {
-                    if alternate && idx % 2 == 1 {
-                        continue;
-                    }
                     let page = (*a & !0xFFF) as usize;
+                    wanted.push(page + (1 + (idx * 7 + life_no) % 15) * PAGE);
+                    if !(alternate && idx % 2 == 1) {
+                        wanted.push(page);
+                    }
+                }
+                for page in wanted {
                     if squats.contains(&(page as u64)) {
                         continue;
                     }
                     unsafe {
                         let p = ip::sys_mmap(page, PAGE, libc::PROT_READ | libc::PROT_WRITE, libc::MAP_PRIVATE | libc::MAP_ANONYMOUS | 0x100000, -1, 0);
                         if p == page {
-                            // 256 little functions at 16-byte pitch
+                            // 256 little functions at 16-byte pitch (also for the companions)
                             for k in 0..256usize {
                                 let mut code = [0xB8u8, 0, 0, 0, 0, 0xC3];
                                 code[1..5].copy_from_slice(&(0x5C00 + k as u32).to_le_bytes());
@@ -461,6 +474,7 @@ fn execute_inner(c: &HistCase, opts: &Opts) -> HistObs {
                 lo.new_log = log_events(&evs_new);
             }
             ip::RACE_MAP_IN.store(life.race_map as i64, SeqCst);
+            ip::MMAP_FAIL_IN.store(life.mmap_fail as i64, SeqCst);
             // model state only for choosing the decode expectation of calls
             let mut top: Vec<Option<(u64, Option<u64>)>> = vec![None; n];
             let mut kept: Vec<(u64, u64)> = vec![]; // live trampolines (addr,len)
@@ -632,6 +646,9 @@ fn execute_inner(c: &HistCase, opts: &Opts) -> HistObs {
             let failed: Vec<(u64, u64)> = ip::FAILED_UNMAPS.lock().map(|mut v| std::mem::take(&mut *v)).unwrap_or_default();
             lo.munmap_fault_hit = !failed.is_empty();
             for (a, l) in &failed {
+                if crate::maps::readable(*a as usize, 32) {
+                    lo.unreleased.push((*a, crate::mem::read_direct(*a as usize, 32)));
+                }
                 // (what the library could not release the harness releases, so that later
                 // lifetimes see the address space they expect)
                 unsafe { ip::sys_munmap(*a as usize, (*l as usize).max(1)) };
@@ -654,6 +671,7 @@ fn execute_inner(c: &HistCase, opts: &Opts) -> HistObs {
             }
             ip::DENY_WX.store(0, SeqCst);
             ip::RACE_MAP_IN.store(0, SeqCst);
+            ip::MMAP_FAIL_IN.store(0, SeqCst);
             let raced: Vec<u64> = ip::RACED.lock().map(|mut v| std::mem::take(&mut *v)).unwrap_or_default();
             for p in raced {
                 let mapped = crate::maps::readable(p as usize, 8);
@@ -765,7 +783,7 @@ pub fn strategy_all(max_lifetimes: usize, max_steps: usize, synth_bias_last_slot
         4 => prop::collection::vec(step.clone(), 0..=max_steps).boxed(),
         1 => (prop::collection::vec(step.clone(), 0..=max_steps / 2), refake, prop::collection::vec(step, 0..=max_steps / 3)).prop_map(|(mut a, b, c)| { a.extend(b); a.extend(c); a }).boxed(),
     ];
-    let life = (steps, prop_oneof![3 => Just(Exit::Normal), 1 => Just(Exit::Unwind)], rw, prop::bool::weighted(deny_wx), prop::bool::weighted(squat)).prop_map(|(steps, exit, rewrite, deny_wx, squat)| Lifetime { steps, exit, rewrite, deny_wx, squat, munmap_fault: 0, race_map: 0 });
+    let life = (steps, prop_oneof![3 => Just(Exit::Normal), 1 => Just(Exit::Unwind)], rw, prop::bool::weighted(deny_wx), prop::bool::weighted(squat)).prop_map(|(steps, exit, rewrite, deny_wx, squat)| Lifetime { steps, exit, rewrite, deny_wx, squat, munmap_fault: 0, race_map: 0, mmap_fail: 0 });
     (synth, prop::collection::vec(life, 1..=max_lifetimes), any::<u8>()).prop_map(|(synth, lifetimes, focus)| {
         // concentrate the history on a few targets: indices are folded onto a window of 4
         let lifetimes = lifetimes
@@ -787,6 +805,7 @@ pub fn strategy_all(max_lifetimes: usize, max_steps: usize, synth_bias_last_slot
                 squat: l.squat,
                 munmap_fault: 0,
                 race_map: 0,
+                mmap_fail: 0,
             })
             .collect();
         HistCase { synth, lifetimes, repeat: 1, in_teardown: focus % 11 == 3 }
